@@ -13,7 +13,7 @@ import (
 
 var iniDecl = &GenCfg{Depth: 2, Fanout: 2, MaxOpts: 4, MaxGroups: 2, NestGroups: 2, Kinds: append(append([]Kind{}, AllArgKinds...), KBool, KBoolSlice, KBoolPtr, KFunc0, KFuncS, KFuncI),
 	Ns: true, Req: 0, Choices: true, Defaults: true, Hidden: true, Desc: true, Initial: true, Bases: true, Aliases: true, SubOpt: 100, NonASCII: true, CmdPct: 60,
-	NsDelims: []string{"-", "::"}, ParserOpts: []flags.Options{flags.IgnoreUnknown}, FieldPool: true, InCode: 8}
+	NsDelims: []string{"-", "::"}, ParserOpts: []flags.Options{flags.IgnoreUnknown}, FieldPool: true, InCode: 8, ViaAdd: 5}
 
 type C14Case struct {
 	D          *Decl     `json:"decl"`
@@ -100,7 +100,7 @@ func genIniLines(t *rapid.T, d *Decl, max int, forms bool) []IniLine {
 		if section != "" && !strings.Contains(section, ".") && len(o.Chain) == 1 {
 			section = randCase(t, section)
 		}
-		key := o.Field
+		key := iniKeyOf(o)
 		if o.IniName != "" {
 			key = o.IniName
 		}
@@ -109,7 +109,9 @@ func genIniLines(t *rapid.T, d *Decl, max int, forms bool) []IniLine {
 			if o.IniName != "" {
 				ks = append(ks, o.IniName, randCase(t, o.IniName))
 			}
-			ks = append(ks, o.Field)
+			if o.Field != "" {
+				ks = append(ks, o.Field)
+			}
 			if o.NsLong != "" {
 				ks = append(ks, o.NsLong)
 			}
@@ -258,15 +260,15 @@ func genC14(t *rapid.T) *C14Case {
 		if scope, ok := iniScope(d, section); ok {
 			var cands []*OptInfo
 			for _, o := range scope {
-				if (o.Kind == KString || o.Kind == KStringSlice || o.Kind == KStringPtr) && !o.NoIni && o.IniName == "" && len(o.Choices) == 0 && iniResolve(scope, o.Field) == o {
+				if (o.Kind == KString || o.Kind == KStringSlice || o.Kind == KStringPtr) && !o.NoIni && o.IniName == "" && len(o.Choices) == 0 && iniResolve(scope, iniKeyOf(o)) == o {
 					cands = append(cands, o)
 				}
 			}
 			if len(cands) > 0 {
 				o := cands[rapid.IntRange(0, len(cands)-1).Draw(t, "boundaryOpt")]
 				boundary = rapid.SampledFrom([]int{4095, 4096, 4097, 8191, 8192, 8193, 12288, 65536, 70000}).Draw(t, "boundaryLen")
-				head := o.Field + " = "
-				c.Lines = append(c.Lines, IniLine{Section: section, Key: o.Field, Value: strings.Repeat("x", boundary-len(head))})
+				head := iniKeyOf(o) + " = "
+				c.Lines = append(c.Lines, IniLine{Section: section, Key: iniKeyOf(o), Value: strings.Repeat("x", boundary-len(head))})
 			}
 		}
 	}
@@ -320,23 +322,23 @@ func genC14(t *rapid.T) *C14Case {
 	case "bad map quoting":
 		var m *OptInfo
 		for _, o := range scope {
-			if o.Kind.IsMap() && !o.NoIni && iniResolve(scope, o.Field) == o && o.IniName == "" {
+			if o.Kind.IsMap() && !o.NoIni && iniResolve(scope, iniKeyOf(o)) == o && o.IniName == "" {
 				m = o
 			}
 		}
 		if m == nil {
 			return c
 		}
-		faultLines = []string{m.Field + " = k:\"bad"}
+		faultLines = []string{iniKeyOf(m) + " = k:\"bad"}
 	case "unknown key":
 		var names []string
 		for _, o := range scope {
-			names = append(names, o.Field+"x", strings.ToLower(o.Field)+"_", "x"+o.NsLong)
+			names = append(names, iniKeyOf(o)+"x", strings.ToLower(iniKeyOf(o))+"_", "x"+o.NsLong)
 		}
 		// names of options that exist elsewhere in the tree (other groups, commands)
 		// but not in the scope this section addresses
 		for _, o := range d.AllOpts() {
-			names = append(names, o.Field)
+			names = append(names, iniKeyOf(o))
 			if o.NsLong != "" {
 				names = append(names, o.NsLong)
 			}
@@ -357,7 +359,7 @@ func genC14(t *rapid.T) *C14Case {
 	case "unconvertible value":
 		var cands []*OptInfo
 		for _, o := range scope {
-			if o.NoIni || o.IniName != "" || iniResolve(scope, o.Field) != o {
+			if o.NoIni || o.IniName != "" || iniResolve(scope, iniKeyOf(o)) != o {
 				continue
 			}
 			if o.Kind.IsFlag() || genInvalidTextPossible(o.Kind) {
@@ -377,10 +379,10 @@ func genC14(t *rapid.T) *C14Case {
 		} else if o.Kind == KFunc0 {
 			bad = "x"
 		}
-		if r := RefIni(d, []IniLine{{Section: section, Key: o.Field, Value: bad}}); r.ErrKind != "bad-value" {
+		if r := RefIni(d, []IniLine{{Section: section, Key: iniKeyOf(o), Value: bad}}); r.ErrKind != "bad-value" {
 			return c
 		}
-		faultLines = []string{o.Field + " = " + bad}
+		faultLines = []string{iniKeyOf(o) + " = " + bad}
 	case "unknown section":
 		// keep the meaning of the following lines: only before a header or at the end
 		for pos < len(noisy) && !strings.HasPrefix(strings.TrimSpace(noisy[pos]), "[") {
